@@ -346,6 +346,22 @@ pub fn plan(tier: Tier) -> Plan {
         checks.push(hist::<H4>("edge-lattice", 2));
         checks.push(hist::<H10>("lattice3", 2));
     }
+    #[cfg(feature = "nightly")]
+    {
+        checks.push(sweep::<K1>("edge-lattice"));
+        checks.push(sweep::<K2>("edge-lattice"));
+        checks.push(sweep::<K3>("edge-lattice"));
+        checks.push(sweep::<K4>("edge-lattice"));
+        for fam in ["lattice3", "lattice4", "lattice3-inf", "const-width"] {
+            checks.push(sweep::<K10>(fam));
+        }
+        checks.push(sweep::<K100>("lattice3"));
+        checks.push(sweep::<K100>("lattice3-inf"));
+        checks.push(hist::<K1>("edge-lattice", 3));
+        checks.push(hist::<K2>("edge-lattice", 3));
+        checks.push(hist::<K3>("lattice3", 4));
+        checks.push(hist::<K4>("lattice3", 3));
+    }
     Plan {
         rule: "find-sweep: every accepted edge vector of the family (LEN 1..4: every list over the 9-value edge lattice that from_ranges accepts; LEN 10/100: every non-decreasing vector over a 3- or 4-value lattice, with and without infinite outer edges) x the sample set (every edge, its two floating-point neighbours, midpoints, +-inf, NaN, +-0, +-MAX, +-5e-324), find() and add() against a linear bin scan; add-histories: BFS over add sequences with ghost bins and ghost success counter; non-trivial = configurations with a zero-width bin or an infinite edge".into(),
         assumptions: common_assumptions(),
